@@ -331,6 +331,10 @@ func run(c *common.Ctx) *common.Result {
 				res.Add("machinery_bad_spec", 1)
 				continue
 			}
+			if !res.Distinct("sources", srcKey(pr.src)) {
+				res.Add("duplicate_sources", 1) // two coordinates rendering the same text: evaluated once
+				continue
+			}
 			v := check(pr)
 			res.Add("evaluations", 1)
 			res.Add("evaluations_"+sp.Fam, 1)
@@ -358,7 +362,7 @@ func run(c *common.Ctx) *common.Result {
 					res.Add("distinct_nontrivial", 1)
 				}
 			}
-			res.Distinct("outcomes", strings.Join(v.obs.Trace, " ")+"|"+v.obs.Result+"|"+fmt.Sprint(v.obs.Failed))
+			res.Distinct("outcomes", srcKey(strings.Join(v.obs.Trace, " ")+"|"+v.obs.Result+"|"+fmt.Sprint(v.obs.Failed)))
 			if v.class != "" {
 				res.Violate(common.Violation{Class: v.class, Case: pr.src, Detail: v.detail, Replay: sp})
 				continue
@@ -396,15 +400,16 @@ func coverage(c *common.Ctx, r *common.Result) map[string]interface{} {
 		"distinct_nontrivial": r.Counts["distinct_nontrivial"],
 		"rule": "a case is one generated program; it counts as non-trivial when the parser accepted it, the run ended within the fuel, the reference interpreter decided it (status ok/failed, no under-determined behaviour touched) " +
 			"and - if the program contains a break/continue/return under test - the reference run executed that very statement; distinctness is measured on the rendered source text",
-		"evaluations_spine":        r.Counts["evaluations_spine"],
-		"evaluations_truthiness":   r.Counts["evaluations_truth"],
-		"evaluations_leaf":         r.Counts["evaluations_leaf"],
-		"evaluations_iteration":    r.Counts["evaluations_iter"],
-		"max_depth":                r.GetMax("depth"),
-		"distinct_outcomes":        r.SetSize("outcomes"),
-		"outside_compared_set":     r.Counts["outside_compared_set"],
-		"outside_compared_reasons": r.SetMembers("outside_reasons"),
-		"wrappers":                 len(wrappers),
+		"evaluations_spine":         r.Counts["evaluations_spine"],
+		"evaluations_truthiness":    r.Counts["evaluations_truth"],
+		"evaluations_leaf":          r.Counts["evaluations_leaf"],
+		"evaluations_iteration":     r.Counts["evaluations_iter"],
+		"duplicate_sources_skipped": r.Counts["duplicate_sources"],
+		"max_depth":                 r.GetMax("depth"),
+		"distinct_outcomes":         r.SetSize("outcomes"),
+		"outside_compared_set":      r.Counts["outside_compared_set"],
+		"outside_compared_reasons":  r.SetMembers("outside_reasons"),
+		"wrappers":                  len(wrappers),
 		"explanation": "spines p;W1[p;W2[p;W3[p];p];p];p over 26 construct positions (if/else-if/else, switch cases incl. multi-expression and default, six loop forms incl. C-style with a probing post expression, for-in over slice/map/closed channel, three function forms, try body/catch/finally, module) with one break/continue/return(0,1,2 values) at every statement position of every level; " +
 			"plus the truthiness family (19 values x 10 condition positions), the nothing-runs family and the iteration-count family; expected trace/result from lib/ir refinterp (strict reading), map loops follow the order the implementation took and must visit every key once",
 	}
